@@ -293,6 +293,8 @@ func (c *FSContext) Renumber(from, to int32) sys.Errno {
 		return sys.EBADF
 	} else if fromFile.IsPreopen {
 		return sys.ENOTSUP
+	} else if from == to {
+		return 0 // renumbering onto itself is a no-op: don't close the file
 	}
 
 	// If toFile is already open, we close it to prevent windows lock issues.
